@@ -53,8 +53,16 @@ func dischargeAll(opts Options, outDir string, obls []*Obligation) []Discharged 
 	}
 	// scripts are rendered sequentially (TermCtx is not thread safe), solved in parallel
 	scripts := make([]string, len(jobs))
+	ground := make([]string, len(jobs))
 	for i, j := range jobs {
 		scripts[i] = j.o.Script(true)
+		if !j.o.Cover {
+			// stage 1: the quantifier-free relaxation (quantified hypotheses replaced by their instances on the goal's
+			// skolem constants and on the addresses read). It has fewer hypotheses, so unsat there is a proof.
+			if rvc, ng := j.o.RelaxedVCGoal(); !hasQuant(ng) {
+				ground[i] = j.o.Unit.c.Script(rvc, false, "")
+			}
+		}
 	}
 	verdicts := make([]Verdict, len(jobs))
 	sem := make(chan struct{}, 6) // 3 solvers per obligation
@@ -67,7 +75,19 @@ func dischargeAll(opts Options, outDir string, obls []*Obligation) []Discharged 
 			defer func() { <-sem }()
 			o := jobs[i].o
 			file := filepath.Join(outDir, fileSafe(o.Name)+".smt2")
-			v := Solve(scripts[i], file, opts.timeout(), opts.Tier == "thorough")
+			var v Verdict
+			if ground[i] != "" && ground[i] != scripts[i] {
+				gfile := filepath.Join(outDir, fileSafe(o.Name)+".ground.smt2")
+				gv := Solve(ground[i], gfile, opts.timeout(), false)
+				os.Remove(gfile)
+				if gv.Status == "proved" {
+					gv.Backend += " (ground)"
+					gv.File = file
+					verdicts[i] = gv
+					return
+				}
+			}
+			v = Solve(scripts[i], file, opts.timeout(), opts.Tier == "thorough")
 			if o.Cover {
 				// cover queries must be satisfiable
 				switch v.Status {
@@ -177,14 +197,17 @@ func printUnit(opts Options, out string, r *UnitResult) int {
 			}
 			if d.V.Status == "undecided" && opts.Verbose && fo.Unit.fn != nil {
 				fmt.Println("             candidate explanation from the quantifier-free relaxation:")
-				explain(fo, out, fo.RelaxedVC())
+				rvc, ng := fo.RelaxedVCGoal()
+				explainGoal(fo, out, rvc, ng)
 			}
 		}
 	}
 	return rc
 }
 
-func explain(o *Obligation, out string, vc []*Term) {
+func explain(o *Obligation, out string, vc []*Term) { explainGoal(o, out, vc, o.Prop) }
+
+func explainGoal(o *Obligation, out string, vc []*Term, goal *Term) {
 	u := o.Unit
 	var probes []probe
 	for i, p := range u.fn.Params {
@@ -221,7 +244,7 @@ func explain(o *Obligation, out string, vc []*Term) {
 		var pp []probe
 		var walk func(t *Term, d int)
 		walk = func(t *Term, d int) {
-			if d > 3 || t.open || len(pp) > 24 {
+			if d > 5 || t.open || len(pp) > 40 {
 				return
 			}
 			if len(t.Args) > 0 && t.Op != "and" {
@@ -231,7 +254,7 @@ func explain(o *Obligation, out string, vc []*Term) {
 				walk(a, d+1)
 			}
 		}
-		walk(o.Prop, 0)
+		walk(goal, 0)
 		if pv, _, err := o.GetValuesFor(vc, pp, 20, filepath.Join(out, fileSafe(o.Name)+".prop.smt2")); err == nil {
 			for _, q := range pp {
 				fmt.Printf("               %s  ==  %s\n", q.Label, trunc(pv[q.Label], 80))
